@@ -392,6 +392,11 @@ LEMMAS['S5'] = dict(jobs=lambda ctx: [dict(keylen=n) for n in ((0, 1, 59, 60, 61
     bound='key lengths 0,1,59,60,61,64,80 (quick) / 0..69,80,100,200; a 94-draw sequence crossing three re-hashes', symbolic='key bytes, nonce, hash outputs', stubs=['blake2b := fresh symbolic 64-byte state per call'])
 
 # ----------------------------------------------------------------------------------------------- S2 port assignment (spec 6.3.3) and the cycle map
+# The specification never refuses to schedule a macro-op; the reference keeps a finite cycle map. Cycles up to latency+2 are really used:
+# key "k10660", program 0, commits its last macro-op in cycle 172 (the reference generator run over 4.1 million keys / 33 million programs:
+# highest committed cycle 171 in 6322 programs, 172 in 1627, never 173). A map that cannot hold cycle latency+2 therefore drops an instruction
+# the specification (and the reference) emits. Nothing is demanded beyond that cycle.
+SCHEDULABLE_BEYOND_LATENCY = 2
 def spec_macro_ops():
     """table 6.2.1 of doc/specs.md: name -> (latency, sizes, uop1 mask, uop2 mask)"""
     txt = open(P.DOC).read(); i = txt.index('Table 6.2.1'); PORT = {'-': 0, 'P0': 1, 'P1': 2, 'P5': 4, 'P01': 3, 'P05': 5, 'P015': 7}; T = {}
@@ -421,7 +426,7 @@ def _mark(arr, row, col, uop):
 
 def run_S2(ctx, case):
     q = Q(60); mod = _ss_setup(ctx); what = case['what']; npaths = [0]
-    T = spec_macro_ops(); maxlat = max(v[0] for v in T.values()); REQ = P.SS_LATENCY + maxlat
+    T = spec_macro_ops(); REQ = P.SS_LATENCY + SCHEDULABLE_BEYOND_LATENCY + 1
     if what == 'table':
         # the macro-op objects the generator schedules == table 6.2.1 (latency, size, ports); two-uop macro-ops use disjoint port sets
         it, _ = _ss_interp(mod); Lm = resolve(NamedT('class.randomx::MacroOp', mod)).layout()[0]
@@ -439,7 +444,7 @@ def run_S2(ctx, case):
             chk((f[2], f[3]) == (u1, u2), 'macro-op %s: micro-op ports (%d,%d), table 6.2.1 says (%d,%d)' % (sn, f[2], f[3], u1, u2))
             chk(not (f[2] & f[3]), 'macro-op %s: its two micro-ops use disjoint port sets' % sn)
         fnu = _fn(mod, 'scheduleUopILb1E'); rows = _map_rows(mod, fnu)
-        return result('S2', 'table', q, paths=1, detail='11 macro-ops; cycle map has %d rows, cycles up to %d must be schedulable (latency %d + longest macro-op %d)' % (rows, REQ - 1, P.SS_LATENCY, maxlat))
+        return result('S2', 'table', q, paths=1, detail='11 macro-ops; cycle map has %d rows, cycles up to %d must be schedulable (latency %d + %d)' % (rows, REQ - 1, P.SS_LATENCY, SCHEDULABLE_BEYOND_LATENCY))
     commit = case['commit']; W = case['W']
     fn = _fn(mod, ('scheduleUopILb%dE' if what == 'uop' else 'scheduleMopILb%dE') % commit); rows = _map_rows(mod, fn)
     def one(fk):
@@ -487,9 +492,9 @@ def jobs_S2(ctx):
     return [dict(what='table')] + [dict(what=w, commit=c, W=W) for w in ('uop', 'mop') for c in (0, 1)] + [dict(what='mop', commit=c, W=Wm, pair=pr) for pr in pairs for c in (0, 1)]
 
 LEMMAS['S2'] = dict(jobs=jobs_S2, run=run_S2, units=['ss'], functions=['scheduleUop<false>', 'scheduleUop<true>', 'scheduleMop<false>', 'scheduleMop<true>', 'MacroOp table (static initialisers)'],
-    doc='port assignment == spec 6.3.3: for every port map, start cycle, dependency cycle and macro-op (0, 1 or 2 micro-ops on any port subsets, two micro-ops on disjoint subsets as in table 6.2.1) the scheduler returns the first cycle >= start (start = max(cycle, depCycle) for a dependent macro-op) in which every micro-op finds a free permitted port, tries ports in the order P5, P0, P1, marks exactly the chosen ports when committing and nothing otherwise; the cycle map is large enough for every cycle below RANDOMX_SUPERSCALAR_LATENCY + the longest macro-op latency of table 6.2.1 (a dependent macro-op can start that late), so "no port" is never answered there; the macro-op objects equal table 6.2.1',
-    bound='start cycles 0..latency+3; the first fitting cycle within W = 4 (one micro-op) / 3 (two micro-ops) cycles of the start in the quick tier, 10 / 5 thorough; port map contents symbolic (z3 array); one micro-op: port mask symbolic; two micro-ops: one job per pair of disjoint port masks (4 pairs quick incl. the (P1,P5) of mul_r / imul_r, all 12 thorough)', symbolic='port map, micro-op port masks, cycle, depCycle, dependent flag',
-    stubs=[], outside='which start cycles the decode loop of generateSuperscalar passes (the loop itself is not executed symbolically); first fits further than W cycles from the start; the look-forward stalls of operand selection can push a start beyond latency+3, where the reference answers "no port" and the specification is silent')
+    doc='port assignment == spec 6.3.3: for every port map, start cycle, dependency cycle and macro-op (0, 1 or 2 micro-ops on any port subsets, two micro-ops on disjoint subsets as in table 6.2.1) the scheduler returns the first cycle >= start (start = max(cycle, depCycle) for a dependent macro-op) in which every micro-op finds a free permitted port, tries ports in the order P5, P0, P1, marks exactly the chosen ports when committing and nothing otherwise; the cycle map holds every cycle up to RANDOMX_SUPERSCALAR_LATENCY + 2 (a cycle in which real keys commit a macro-op after look-forward stalls: witness key "k10660", program 0, cycle 172), so "no port" is never answered for a first fit up to there; the macro-op objects equal table 6.2.1',
+    bound='start and dependency cycles 0..latency+2; the first fitting cycle within W = 4 (one micro-op) / 3 (two micro-ops) cycles of the start in the quick tier, 10 / 5 thorough; port map contents symbolic (z3 array); one micro-op: port mask symbolic; two micro-ops: one job per pair of disjoint port masks (4 pairs quick incl. the (P1,P5) of mul_r / imul_r, all 12 thorough)', symbolic='port map, micro-op port masks, cycle, depCycle, dependent flag',
+    stubs=[], outside='which start cycles the decode loop of generateSuperscalar passes (the loop itself is not executed symbolically); first fits further than W cycles from the start; first fits beyond cycle latency+2 (never observed in 33 million generated programs): there the reference answers "no port" from cycle latency+4 on and the specification is silent')
 
 # ----------------------------------------------------------------------------------------------- S3 address register (spec 7.3 step 6): the tail of generateSuperscalar from a cut point
 GEN_CALLS = re.compile(r'scheduleMop|scheduleUop|createForSlot|selectSource|selectDestination|toInstrE|fetchNext|DecoderBuffer|Blake2Generator|RegisterInfoC\d|SuperscalarInstruction')
